@@ -1,2 +1,4 @@
 -- aggregates all property modules
 import Rmk.Properties.C07
+import Rmk.Properties.C17
+import Rmk.Properties.C18
